@@ -21,4 +21,10 @@ Allowed(P, cands, before, after) ==
 OnlyPlaceholdersReplaced(P, tin, tout) ==
   /\ Len(tin) = Len(tout)
   /\ \A k \in 1..Len(tin) : tin[k] = tout[k] \/ tin[k] = P
+\* the placeholder is replaced in bookings only (not where the same text occurs in comments, descriptions, open /
+\* close / balance directives or annotations): as many tokens change as booking sides change
+ChangedTokens(tin, tout) == Cardinality({k \in 1..Len(tin) : tin[k] # tout[k]})
+ChangedSides(before, after) == Cardinality({k \in 1..Len(before) : before[k].cr # after[k].cr}) + Cardinality({k \in 1..Len(before) : before[k].dr # after[k].dr})
+OnlyInBookings(tin, tout, before, after) ==
+  Len(tin) = Len(tout) /\ Len(before) = Len(after) => ChangedTokens(tin, tout) = ChangedSides(before, after)
 =============================================================================
